@@ -113,7 +113,9 @@ Proof.
       unfold tw_write_header, write_header_locked in H. destruct (valid_code c) eqn:V; simpl in H |- *.
       * rewrite E in H. destruct (tw_wroteHeader t) eqn:W.
         -- apply IH in H; [|assumption]. rewrite W in H. simpl. exact H.
-        -- apply IH in H; [|reflexivity]. simpl in H. exact H.
+        -- destruct (is_info c) eqn:I.
+           ++ (* informational: dropped, nothing changes *) apply IH in H; [|assumption]. rewrite W in H. exact H.
+           ++ apply IH in H; [|reflexivity]. simpl in H. exact H.
       * apply (Hpanic t (recover_sees PVString)) in H; auto.
     + (* Write *)
       unfold tw_write, write_header_locked in H. rewrite E in H. destruct (tw_wroteHeader t) eqn:W; simpl in H.
@@ -503,7 +505,10 @@ Proof.
 Qed.
 
 Lemma commit_none_body pre : commit_status pre = None -> spec_body pre = [].
-Proof. induction pre as [|a r IH]; simpl; [auto|]. destruct a; simpl; auto; discriminate. Qed.
+Proof.
+  induction pre as [|a r IH]; simpl; [auto|]. destruct a; simpl; auto; try discriminate.
+  destruct (is_info c); [auto|discriminate].
+Qed.
 
 Lemma first_panic_app pre a post : has_panic pre = false -> panics a = true ->
   first_panic (pre ++ a :: post) = Some (panic_value_of a).
@@ -724,6 +729,20 @@ Proof.
   intros g r. destruct (effective_timeout_cases g r) as [A B]. split; [exact A|]. split; [exact B|]. split.
   - unfold effective_timeout. destruct (0 <? r) eqn:E; lia.
   - intro t. unfold rpc_has_timeout. lia.
+Qed.
+
+(* ================================================================== application-wide error handlers *)
+Lemma t_timeout_reply_ignores_plain_error_handler : forall code b c s,
+  timeout_arm_events (GPlain code b) c (rw_h (st_rw s)) = timeout_arm_events GNone c (rw_h (st_rw s)) /\
+  rw_log (st_rw (flush_timeout c s)) = (rw_log (st_rw s) ++ timeout_arm_events (GPlain code b) c (rw_h (st_rw s)))%list /\
+  (forall ctx, error_calls (GPlain code b) true = error_calls GNone ctx) /\
+  error_calls (GPlain code b) false = handled_calls code b /\
+  error_calls (GCtx code b) true = handled_calls code b /\
+  (forall ctx, error_calls (GCtx code b) false = error_calls GNone ctx).
+Proof.
+  intros code b c s. split; [reflexivity|]. split.
+  - unfold flush_timeout, rw_write, rw_write_header; simpl. rewrite <- app_assoc. reflexivity.
+  - repeat split; intros; try destruct ctx; reflexivity.
 Qed.
 
 (* ================================================================== the statements of Props.v *)
